@@ -1138,8 +1138,85 @@ def insert_at_random(rng, tree, leaf):
 NONOPS = ["int", "float", "str", "none", "tuple", "ndarray", "dict"]
 
 
-def gen_sequence(rng, n):
+PROBE_FORMS = ["none", "empty_list", "str", "list", "tuple", "probe_object", "adc_object", "callable",
+               "list_with_none", "list_of_objects"]
+
+
+def random_sim_options(rng):
+    return {"probe": rng.choice(PROBE_FORMS), "adc_time": rng.random() < 0.5, "asarray": rng.random() < 0.5,
+            "init": rng.choice(["none", "none", "list", "statematrix"]), "max_nstate": rng.choice([None, None, 0, 3]),
+            "callback": rng.random() < 0.3, "squeeze": rng.choice([None, False]), "disp": rng.choice([None, False])}
+
+
+def py_sim_options(o):
+    import epgpy as epg
+    kw = {}
+    probe = {"none": None, "empty_list": [], "str": "F0", "list": ["F0", "Z0"], "tuple": ("F0",),
+             "probe_object": epg.Probe("Z0"), "adc_object": epg.ADC, "callable": (lambda sm: sm.F0),
+             "list_with_none": [None, "Z0"], "list_of_objects": [epg.Probe("F0"), epg.ADC]}[o["probe"]]
+    if o["probe"] != "none" or o.get("explicit_none"):
+        kw["probe"] = probe
+    if o["adc_time"]:
+        kw["adc_time"] = True
+    if not o["asarray"]:
+        kw["asarray"] = False
+    if o["init"] == "list":
+        kw["init"] = [0, 0, 1]
+    elif o["init"] == "statematrix":
+        kw["init"] = epg.StateMatrix([0.5j, -0.5j, 0.5])
+    if o["max_nstate"] is not None:
+        kw["max_nstate"] = o["max_nstate"]
+    if o["callback"]:
+        kw["callback"] = lambda sm: None
+    for k in ("squeeze", "disp"):
+        if o.get(k) is False:
+            kw[k] = False
+    return kw
+
+
+def coq_sim_options(o):
+    pr = {"none": "PrNone", "empty_list": "PrEmpty", "str": "PrStr", "list": "(PrList 2)", "tuple": "(PrTuple 1)",
+          "probe_object": "PrObject", "adc_object": "PrObject", "callable": "PrCallable", "list_with_none": "(PrList 2)",
+          "list_of_objects": "(PrList 2)"}[o["probe"]]
+    return "(mkSimOpts %s %s %s %s %s %s)" % (pr, core.coq_bool(o["adc_time"]), core.coq_bool(o["asarray"]),
+                                            core.coq_bool(o["init"] != "none"), opt(o["max_nstate"], nat),
+                                            core.coq_bool(o["callback"]))
+
+
+# probe-less sequences of every build, crossed with every form of probe= and adc_time (and their valid twins)
+PROBELESS = {
+    "flat": [["op", [1]], ["op", [1]]],
+    "single_operator": [["op", [1]]],
+    "nested": [["op", [1]], ["list", [["op", [2]], ["list", [["op", [1]]]]]]],
+    "multioperator": [["multi", [["op", [1]], ["op", [1]]]], ["op", [1]]],
+    "empty": [],
+    "only_empty_lists": [["list", []], ["list", [["list", []]]]],
+}
+
+
+def gen_simulate_options_cross():
+    import copy
     out = []
+    for sname, tree in PROBELESS.items():
+        for pf in PROBE_FORMS:
+            for adc_time in (False, True):
+                o = {"probe": pf, "adc_time": adc_time, "asarray": not adc_time, "init": "none", "max_nstate": None,
+                     "callback": False, "explicit_none": pf == "none" and adc_time}
+                out.append(case("sequence", "no_probe_%s_probe_arg_%s%s" % (sname, pf, "_adc_time" if adc_time else ""),
+                                {"call": "simulate", "tree": copy.deepcopy(tree), "options": o}, "invalid"))
+                twin = copy.deepcopy(tree) + ["probe"]
+                if sname == "nested":
+                    twin = copy.deepcopy(tree)
+                    twin[1][1][1][1].append("probe")          # the probe sits two lists deep
+                elif sname == "multioperator":
+                    twin = [["multi", [["op", [1]], "probe"]], ["op", [1]]]
+                out.append(case("sequence", "with_probe_%s_probe_arg_%s%s" % (sname, pf, "_adc_time" if adc_time else ""),
+                                {"call": "simulate", "tree": twin, "options": dict(o)}, "valid"))
+    return out
+
+
+def gen_sequence(rng, n):
+    out = gen_simulate_options_cross()
     for i in range(n):
         kind = rng.choice(["no_probe", "no_probe", "nonop", "nonop", "valid", "valid", "modify",
                            "seq_check", "seq_missing", "seq_missing", "seq_unknown", "seq_extra", "seq_valid"])
@@ -1158,6 +1235,9 @@ def gen_sequence(rng, n):
                 exp, variant = "invalid", "non_operator_%s_depth%d" % (what, d)
             call = "simulate"
             spec = {"call": call, "tree": tree}
+            if kind != "modify" and rng.random() < 0.7:
+                spec["options"] = random_sim_options(rng)
+                variant += "_options_probe_arg_" + spec["options"]["probe"]
             if kind == "modify":
                 spec["call"] = "modify"
                 spec["callable"] = rng.random() < 0.5
@@ -1254,6 +1334,10 @@ def build_sequence(spec, QK):
     if call in ("simulate", "modify"):
         items = py_tree(spec["tree"])
         if call == "simulate":
+            if spec.get("options"):
+                kw = py_sim_options(spec["options"])
+                return (lambda: epg.simulate(items, **kw)), "simulate_call_ok %s 64 %s" % (
+                    coq_sim_options(spec["options"]), coq_tree(spec["tree"]))
             return (lambda: epg.simulate(items)), "simulate_ok 64 %s" % coq_tree(spec["tree"])
         mod = (lambda op, **kw: op) if spec["callable"] else 3
         return (lambda: epg.modify(items, mod, T1=100.0)), "modify_ok 64 %s %s" % (coq_tree(spec["tree"]),
